@@ -210,3 +210,61 @@ func (m *CountingUDPMux) Unreleased() []string {
 	}
 	return out
 }
+
+// CountingTCPMux decorates an ice.TCPMux and records handed-out handles and removals.
+type CountingTCPMux struct {
+	ice.TCPMux
+	mu      sync.Mutex
+	Handles []*CountedConn
+	Removed map[string]int
+}
+
+// NewCountingTCPMux wraps m.
+func NewCountingTCPMux(m ice.TCPMux) *CountingTCPMux {
+	return &CountingTCPMux{TCPMux: m, Removed: map[string]int{}}
+}
+
+// GetConnByUfrag hands out a counted handle.
+func (m *CountingTCPMux) GetConnByUfrag(ufrag string, isIPv6 bool, local net.IP) (net.PacketConn, error) {
+	c, err := m.TCPMux.GetConnByUfrag(ufrag, isIPv6, local)
+	if err != nil {
+		return nil, err
+	}
+	cc := &CountedConn{PacketConn: c, Ufrag: ufrag}
+	m.mu.Lock()
+	m.Handles = append(m.Handles, cc)
+	m.mu.Unlock()
+	return cc, nil
+}
+
+// RemoveConnByUfrag counts and forwards.
+func (m *CountingTCPMux) RemoveConnByUfrag(ufrag string) {
+	m.mu.Lock()
+	m.Removed[ufrag]++
+	m.mu.Unlock()
+	m.TCPMux.RemoveConnByUfrag(ufrag)
+}
+
+// LocalAddr forwards the optional address provider of the wrapped mux.
+func (m *CountingTCPMux) LocalAddr() net.Addr {
+	if p, ok := m.TCPMux.(interface{ LocalAddr() net.Addr }); ok {
+		return p.LocalAddr()
+	}
+	return nil
+}
+
+// Unreleased lists handles that were neither closed nor had their ufrag removed.
+func (m *CountingTCPMux) Unreleased() []string {
+	m.mu.Lock()
+	defer m.mu.Unlock()
+	var out []string
+	for _, h := range m.Handles {
+		h.mu.Lock()
+		cl := h.Closes
+		h.mu.Unlock()
+		if cl == 0 && m.Removed[h.Ufrag] == 0 {
+			out = append(out, fmt.Sprintf("%s@%s", h.Ufrag, h.LocalAddr()))
+		}
+	}
+	return out
+}
